@@ -1,5 +1,6 @@
 """C06: filters and data cannot make jaq touch files, network or other processes."""
 import concurrent.futures
+import glob
 import json
 import os
 import re
@@ -110,7 +111,8 @@ def judge(calls, allowed_read, baseline):
 
 POOL = ["/etc/passwd", "/etc/hostname", "@CANARY", "@SECRET", "2020-01-01 ../../../../etc/hostname", "%Y-%m-%d %Q", "%:Q", "../../../..@SECRET", "@CWD/new-file", "../../../etc/shadow", "~/.ssh/id_rsa", "file:///etc/passwd", "http://127.0.0.1:1/x", "https://example.invalid/", "tcp://127.0.0.1:9",
         "$(touch @CANARY)", "`touch @CANARY`", "| touch @CANARY", "; touch @CANARY", "touch @CANARY", "/bin/sh", "sh -c 'echo x > @CANARY'", "@CANARY\u0000x", "//server/share/x", "C:\\Windows\\x",
-        "/dev/tcp/127.0.0.1/9", "/proc/self/environ", "/dev/zero", "%s%n", "{\"search\": \"/etc\"}", "import \"/etc/passwd\" as $x; .", "include \"@CANARY\";", "Europe/Vienna", "/usr/share/zoneinfo/../../../etc/passwd", ""]
+        "/dev/tcp/127.0.0.1/9", "/proc/self/environ", "/dev/zero", "%s%n", "{\"search\": \"/etc\"}", "import \"/etc/passwd\" as $x; .", "include \"@CANARY\";", "import \"d\" as $s {search: \"@LIB/sub\"}; $s", "include \"secret\" {search: \"@LIB\"}; secret",
+        "import \"m\" as m {search: \"@LIB\"}; m::f", "Europe/Vienna", "/usr/share/zoneinfo/../../../etc/passwd", ""]
 
 DOCS = [
     ("yaml", b"!!python/object/apply:os.system [\"touch @CANARY\"]\n"), ("yaml", b"!!python/object/new:subprocess.Popen [[\"touch\", \"@CANARY\"]]\n"), ("yaml", b"a: !include /etc/passwd\nb: !!binary L2V0Yy9wYXNzd2Q=\nc: !<tag:yaml.org,2002:str> x\n"),
@@ -142,11 +144,16 @@ def custom(ctx):
 
     secret = os.path.join(work, "secret.txt")
     open(secret, "w").write("top secret\n")
+    lib = os.path.join(work, "lib")
+    os.makedirs(os.path.join(lib, "sub"))
+    tmpd = os.path.join(work, "tmp")
+    os.makedirs(tmpd)
+    env["TMPDIR"] = tmpd
 
     def subst(x):
         if isinstance(x, bytes):
-            return x.replace(b"@CANARY", canary.encode()).replace(b"@CWD", cwd.encode()).replace(b"@SECRET", secret.encode())
-        return x.replace("@CANARY", canary).replace("@CWD", cwd).replace("@SECRET", secret)
+            return x.replace(b"@CANARY", canary.encode()).replace(b"@CWD", cwd.encode()).replace(b"@SECRET", secret.encode()).replace(b"@LIB", lib.encode())
+        return x.replace("@CANARY", canary).replace("@CWD", cwd).replace("@SECRET", secret).replace("@LIB", lib)
 
     stats = {}
     viol = []
@@ -161,7 +168,7 @@ def custom(ctx):
     # (a) natives, definitions, format filters on path-like tuples
     pool = [subst(p) for p in POOL]
     if tier == "quick":
-        keep = pool[:8] + random_sample(rng, pool[8:], 6)
+        keep = pool[:8] + [x for x in pool[8:] if "search" in x and "import" in x or "include \"secret" in x] + random_sample(rng, pool[8:], 6)
     else:
         keep = pool
     vals = keep + [[keep[0], keep[2]], {"path": keep[2], keep[0]: keep[3]}]
@@ -180,6 +187,18 @@ def custom(ctx):
             if small:
                 prog = "%s as $q | ($q[:7] + $q[-2:]) as $p | $p[] as $i | %s(try ([limit(3; $i | %s)] | empty) catch empty)" % (lit, binds, t)
             jobs.append((label, [J, "-n", prog], b"", set(), prog))
+    # the filters the command-line program registers itself: every one (but the interactive `repl`) on every string of the pool
+    known = set(lbl.split(" ")[1] for _, _, _, lbl in c05.callables())
+    for path_ in glob.glob("/repo/jaq/src/*.rs"):
+        for name, ar in re.findall(r'\(\s*"([a-z_0-9]+)"\s*,\s*v\((\d+)\)', open(path_, errors="replace").read()):
+            if name == "repl" or "%s/%s" % (name, ar) in known:
+                continue
+            stats["cli_natives"] = stats.get("cli_natives", 0) + 1
+            args = "; ".join("$a%d" % i for i in range(int(ar)))
+            call = name + ("(" + args + ")" if args else "")
+            binds = "".join("$p[] as $a%d | " % i for i in range(int(ar)))
+            prog = "%s as $p | $p[] as $i | %s(try ([limit(3; $i | %s)] | empty) catch empty)" % (lit, binds, call)
+            jobs.append(("native %s/%s" % (name, ar), [J, "-n", prog], b"", set(), prog))
     # (b) generated programs
     g = Gen(rng, max_depth=4)
     for _ in range(60 if tier == "quick" else 1500):
@@ -187,6 +206,10 @@ def custom(ctx):
         jobs.append(("generated", [J, "-c", "limit(20; " + p + ")"], json.dumps([keep[0], {"a": keep[2]}, 1, None]).encode(), set(), p))
     # (c) documents
     docs = [(f, subst(d)) for f, d in DOCS]
+    # large documents that do not decode (error paths of the decoders)
+    docs += [("yaml", b"a: [" + b"x, " * 700), ("yaml", b"{" + b"k: v, " * 400 + b"]"), ("xml", b"<a>" + b"<b>text</b>" * 200 + b"</c>"), ("xml", b"<a " + b"x" * 2000),
+             ("toml", b"a = [" + b"1, " * 600), ("toml", b"[t]\n" + b"k = 1\n" * 300 + b"k = = 2\n"), ("cbor", b"\x9f" + b"\x01" * 2000), ("cbor", b"\xbf" + b"\x61a\x01" * 600 + b"\xfe"),
+             ("json", b"[" + b"1, " * 600 + b"}"), ("csv", b"\"" + b"a" * 3000), ("tsv", b"a\\q" * 600)]
     more = c05.documents(rng, "quick")
     docs += rng.sample(more, 60 if tier == "quick" else 1200)
     for fmt, d in docs:
@@ -194,8 +217,6 @@ def custom(ctx):
         if fmt not in ("raw", "raw0", "json"):
             jobs.append(("document-filter:" + fmt, [J, "-n", "-c", "input | from" + fmt, "--from", "raw", "-s"] if False else [J, "-R", "-s", "-c", "try from%s catch \"rejected\"" % fmt], d, set(), "from" + fmt))
     # (d) named files whose contents name other paths
-    lib = os.path.join(work, "lib")
-    os.makedirs(os.path.join(lib, "sub"))
     open(os.path.join(lib, "m.jq"), "w").write("import \"d\" as $d {search: \"sub\"}; def f: [$d[0].path, \"%s\"];" % canary)
     open(os.path.join(lib, "sub", "d.json"), "w").write(json.dumps({"path": canary, "import": "/etc/hostname", "include": "secret"}))
     open(os.path.join(lib, "secret.jq"), "w").write("def secret: 1;")
@@ -262,6 +283,8 @@ def custom(ctx):
     left = os.listdir(cwd)
     if left:
         viol.append(dict(key="cwd", what="files appeared in the working directory: %s" % left[:5], case=dict(filter="(all runs)", kind="canary"), impl=None))
+    if os.listdir(tmpd):
+        viol.append(dict(key="tmpdir", what="files appeared in the directory for temporary files: %s" % os.listdir(tmpd)[:5], case=dict(filter="(all runs)", kind="canary"), impl=None))
     if os.listdir(home):
         viol.append(dict(key="home", what="files appeared in the home directory: %s" % os.listdir(home)[:5], case=dict(filter="(all runs)", kind="canary"), impl=None))
     shutil.rmtree(work, ignore_errors=True)
